@@ -32,7 +32,7 @@ def run(ctx):
     if want("rowwise") or want("pools"):
         hs = histories(ctx, rng)
         jobs = []
-        per = ctx.pick(5, 40)
+        per = ctx.pick(5, 14)
         for name in ROWWISE + sorted(getattr(__import__("harness.adapters_lot", fromlist=["ALL"]), "ROWWISE", [])) \
                 if _has_lot() else ROWWISE:
             cls = _all()[name]
